@@ -52,6 +52,8 @@ def sync_family(ctx, progs, want=("complete", "sound", "fails", "trace"), tcap=N
     for p, lo, up, r in zip(progs, lower, upper, res):
         # waivers (open findings) apply to generated programs only; directed shapes get the full comparison
         wv = families.waived(p) if waive and "sync" in p.get("tags", []) else {}
+        if "yield" in families.ops_of(p):
+            wv = dict(wv, complete="yield")
         for k, f in wv.items():
             if k in want:
                 ctx.cov["waived"] = ctx.cov.get("waived", {})
